@@ -28,7 +28,7 @@ package coverage
 //@     invariant forall g uint16 :: has(table, g) ==> rev[table[g]] == g
 //@     decreases len(rev) - i
 //@   loop 2
-//@     invariant rangeCount == nranges(rev, iter) && 0 <= rangeCount && rangeCount <= iter && (iter > 0 ==> prev == rev[iter-1]) && (iter == 0 ==> prev == 65535)
+//@     invariant rangeCount == nranges(rev, iter) && 0 <= rangeCount && rangeCount <= iter && (iter > 0 ==> prev == rev[iter-1]) && (iter == 0 ==> (prev + 1 < 0 || prev + 1 > 65535))
 //@     invariant len(rev) == len(table) && fresh(rev) && off(rev) == 0
 //@     invariant forall k int :: 1 <= k && k < len(rev) ==> rev[k-1] < rev[k]
 //@     invariant forall g uint16 :: has(table, g) ==> rev[table[g]] == g
@@ -54,5 +54,41 @@ package coverage
 //@     invariant forall k int :: 0 <= k && k < iter ==> be16(buf, 4 + 2*k) == rev[k]
 //@   loop 1
 //@     invariant format2Length == 4 + 6*nranges(rev, len(rev)) && rangeCount == nranges(rev, len(rev)) && fresh(buf) && len(rev) >= 1
-//@     invariant len(buf) == 4 + 6*ite(iter > 0, nranges(rev, iter) - 1, 0) && (iter > 0 ==> prev == rev[iter-1]) && (iter == 0 ==> prev == 65535)
+//@     invariant len(buf) == 4 + 6*ite(iter > 0, nranges(rev, iter) - 1, 0) && (iter > 0 ==> prev == rev[iter-1]) && (iter == 0 ==> (prev + 1 < 0 || prev + 1 > 65535))
 //@     invariant be16(buf, 0) == 2 && be16(buf, 2) == rangeCount && 0 <= startCoverageIndex && startCoverageIndex <= iter
+
+//@ func ReadSet(p *parser.Parser, pos int64) (set Set, err error)   props: C02 C18 C08
+//@   requires parser.inv(p) && pos >= 0
+//@   ensures err == nil ==> set != nil
+//@   ensures faults(p.r) > old(faults(p.r)) ==> err != nil
+//@   loop 0
+//@     invariant parser.inv(p) && 0 <= i && table != nil && fresh(table) && faults(p.r) == old(faults(p.r))
+//@     decreases glyphCount - i
+//@   loop 1
+//@     invariant parser.inv(p) && 0 <= i && table != nil && fresh(table) && faults(p.r) == old(faults(p.r)) && 0 <= pos && pos <= 65536*i
+//@     decreases rangeCount - i
+//@   loop 2
+//@     invariant startGlyphID <= gid && gid <= endGlyphID + 1 && endGlyphID <= 65535 && 0 <= startGlyphID && table != nil && fresh(table) && 0 <= i && i < rangeCount
+//@     invariant 0 <= pos && pos <= 65536*i + (gid - startGlyphID)
+//@     decreases endGlyphID + 1 - gid
+
+//@ func Read(p *parser.Parser, pos int64) (table Table, err error)   props: C02 C18 C08
+//@   requires parser.inv(p) && pos >= 0
+//@   ensures err == nil ==> table != nil && covValid(table)
+//@   ensures faults(p.r) > old(faults(p.r)) ==> err != nil
+//@   loop 0
+//@     invariant parser.inv(p) && 0 <= i && i <= glyphCount && table != nil && fresh(table) && faults(p.r) == old(faults(p.r)) && len(table) == i && -1 <= prev && prev <= 65535
+//@     invariant forall g uint16 :: has(table, g) ==> 0 <= table[g] && table[g] < i && g <= prev
+//@     invariant forall g1 uint16 :: forall g2 uint16 :: has(table, g1) && has(table, g2) && g1 < g2 ==> table[g1] < table[g2]
+//@     decreases glyphCount - i
+//@   loop 1
+//@     invariant parser.inv(p) && 0 <= i && i <= rangeCount && table != nil && fresh(table) && faults(p.r) == old(faults(p.r)) && len(table) == pos && 0 <= pos && pos <= prev + 1 && -1 <= prev && prev <= 65535
+//@     invariant forall g uint16 :: has(table, g) ==> 0 <= table[g] && table[g] < pos && g <= prev
+//@     invariant forall g1 uint16 :: forall g2 uint16 :: has(table, g1) && has(table, g2) && g1 < g2 ==> table[g1] < table[g2]
+//@     decreases rangeCount - i
+//@   loop 2
+//@     invariant startGlyphID <= gid && gid <= endGlyphID + 1 && endGlyphID <= 65535 && prev < startGlyphID && table != nil && fresh(table) && 0 <= i && i < rangeCount
+//@     invariant len(table) == pos && 0 <= pos && pos <= gid && -1 <= prev
+//@     invariant forall g uint16 :: has(table, g) ==> 0 <= table[g] && table[g] < pos && g < gid
+//@     invariant forall g1 uint16 :: forall g2 uint16 :: has(table, g1) && has(table, g2) && g1 < g2 ==> table[g1] < table[g2]
+//@     decreases endGlyphID + 1 - gid
